@@ -2,6 +2,7 @@
 from __future__ import annotations
 
 import asyncio
+import json
 import logging
 
 from hypothesis import strategies as st
@@ -55,7 +56,7 @@ BASE["raise"] = True
 def plan(tier):
     q = tier == "quick"
     return [{"name": "main", "examples": 1200 if q else 30000}, {"name": "preempt", "examples": 700 if q else 12000},
-            {"name": "sustained", "examples": 120 if q else 2000, "shards": 4},
+            {"name": "sustained", "examples": 240 if q else 4000, "shards": 4},
             {"name": "startphase", "examples": 250 if q else 8000}]
 
 
@@ -109,15 +110,20 @@ def _sustained(draw):
     m = d.int(3, 8)
     n = m + d.int(1, 12)
     slow = d.pick([10, 20, 40])
-    w = {"key": "w", "kind": "atomic", "on": [["A", [{"target": None, "actions": [{"k": "user", "name": "slow"}]}]],
-                                              ["B", [{"target": None, "actions": []}]]]}
+    # variant: every A additionally raises one ordinary event R (handled by a no-op, raises nothing itself): the
+    # longest self-fed chain is 1 however long the backlog lasts, so no bound may ever be reached
+    raises = d.chance(50)
+    a_actions = [{"k": "user", "name": "slow"}] + ([{"k": "raise", "event": "R"}] if raises else [])
+    w = {"key": "w", "kind": "atomic", "on": [["A", [{"target": None, "actions": a_actions}]],
+                                              ["B", [{"target": None, "actions": []}]],
+                                              ["R", [{"target": None, "actions": []}]]]}
     spec = {"id": "m", "root": {"key": "m", "kind": "compound", "initial": "w", "children": [w]}, "context": {"n": 0},
             "maxIterations": m, "tables": {}, "services": {}, "impls": {"slow": {"k": "slow", "ms": slow}}}
     finalize(spec)
     prod = [[0, "A", "send"]] + [[slow // 2 if i == 0 else slow, "A", "send"] for i in range(n - 1)]
     others = [[[d.pick([0, 5, 15]), "B", "send"]] for _ in range(d.int(0, 2))]
     return {"spec": spec, "producers": [prod] + others, "engine": draw(st.sampled_from(["sync", "async"])),
-            "choices": draw(st.lists(st.integers(0, 5), max_size=20)), "tail": 200 + slow * n}
+            "choices": draw(st.lists(st.integers(0, 5), max_size=20)), "tail": 200 + slow * n, "max_chain": 1}
 
 
 @st.composite
@@ -373,7 +379,7 @@ def check_case(case) -> CaseResult:
         self_fed = '"k": "raise"' in _json.dumps(spec) or any(e[0] == "recv" and str(e[1]).startswith("done.") for e in log)
         if lost and stranded:
             pass  # reported above as stranded (accepted, never dequeued, still in the queue)
-        elif lost and not cut and (len([e for e in log if e[0] == "recv"]) < maxit or not self_fed):
+        elif lost and not cut and (len([e for e in log if e[0] == "recv"]) < maxit or not self_fed or case.get("max_chain", maxit) < maxit):
             res.violate(f"{engine}|event-lost", {"engine": engine, "lost": lost[:6], "sent": len(want), "dequeued": len(got)})
         elif lost:
             res.inconclusive = "cut-or-bound"
@@ -381,6 +387,13 @@ def check_case(case) -> CaseResult:
             res.violate(f"{engine}|event-duplicated", {"engine": engine, "dup": dup[:6]})
         if extra:
             res.violate(f"{engine}|event-from-nowhere", {"engine": engine, "extra": extra[:6]})
+    if case.get("max_chain") == 1 and not stranded:
+        # sustained template: every A raises exactly one R and R raises nothing, so no self-fed chain is ever
+        # longer than 1 and no bound may be reached: each raised R must be dequeued exactly once
+        n_a = sum(1 for e in log if e[0] == "recv" and e[1] == "A")
+        n_r = sum(1 for e in log if e[0] == "recv" and e[1] == "R")
+        if '"k": "raise"' in json.dumps(spec) and n_r != n_a:
+            res.violate(f"{engine}|raised-event-{'lost' if n_r < n_a else 'duplicated'}|sustained-load", {"engine": engine, "raised": n_a, "dequeued": n_r, "maxIterations": maxit})
     for p in range(len(case["producers"])):
         mine = [s for s in recv_ext if s // 1000 == p]
         if mine != sorted(mine):
